@@ -167,6 +167,54 @@ proof! {
 	}
 }
 
+proof! {
+	[hash_mix, rand] fn accepted_proofs_consume_their_path() {
+		// Structural half of "shortening or lengthening the path makes verification fail", which
+		// needs no assumption about the hash: whenever verification of a proof with m path hashes
+		// succeeds, exactly m + 1 hashes were computed (the leaf and one per path element) — a
+		// verifier that stops as soon as some intermediate hash equals the root, or that skips
+		// path elements, is caught whatever the hash function is. Honest proof with an arbitrary
+		// hash appended / prepended, and honest proof truncated at either end.
+		let leaves = any_leaves();
+		let mut ba = build(&leaves);
+		let mmr = PMMR::at(&mut ba, SIZE as u64);
+		let root = mmr.root().unwrap();
+		let x: [u8; 32] = nd::any();
+		let xh = Hash::from_vec(&x);
+		let mut i = 0;
+		while i < NL {
+			let pos = pmmr::insertion_to_pmmr_index(i as u64);
+			let proof = mmr.merkle_proof(pos).unwrap();
+			let m = proof.path.len();
+			let mut variant = 0;
+			while variant < 5 {
+				let mut p2 = proof.clone();
+				match variant {
+					0 => {}
+					1 => p2.path.push(xh),
+					2 => p2.path.insert(0, xh),
+					3 => { p2.path.pop(); }
+					_ => { if !p2.path.is_empty() { p2.path.remove(0); } }
+				}
+				let expect = p2.path.len() + 1;
+				let before = env::hash_calls();
+				let r = p2.verify(root, &leaves[i], pos);
+				let used = env::hash_calls() - before;
+				#[cfg(kani)]
+				check!(r.is_err() || used == expect, "an accepted proof was consumed completely: one hash for the leaf and one per path element");
+				if variant == 0 {
+					check!(r.is_ok(), "the honest proof verifies");
+					let _ = m;
+				}
+				core::mem::forget(p2);
+				variant += 1;
+			}
+			core::mem::forget(proof);
+			i += 1;
+		}
+	}
+}
+
 /// which leaf the soundness query is about
 const LEAF: usize = parse_env(option_env!("VH_LEAF"), 0) as usize;
 /// which corruption: 1 element, 2 position, 3 altered path hash, 4 shortened, 5 lengthened
@@ -241,5 +289,6 @@ proof! {
 pub const HARNESSES: &[(&str, fn())] = &[
 	("c07b::construction_equals_definition", construction_equals_definition),
 	("c07b::honest_proofs_verify", honest_proofs_verify),
+	("c07b::accepted_proofs_consume_their_path", accepted_proofs_consume_their_path),
 	("c07b::merkle_proof_sound", merkle_proof_sound),
 ];
